@@ -214,9 +214,9 @@ Lemma tokens_result n h o : n <= length h -> Forall (fun v => exists t, v = Tok 
   forall f, dfresh n f (h ++ [o]) (Ref (length h)).
 Proof.
   intros Hn Ho f. eapply fresh_result with (a := length h); auto.
-  - apply closed_snoc; [apply closed_nil|lia|].
+  - apply closed_snoc; [apply closed_nil|apply Nat.le_refl|].
     eapply Forall_impl; [|exact Ho]. intros v [t ->]. exact I.
-  - simpl. lia.
+  - simpl. apply Nat.le_refl.
 Qed.
 
 (* ---------------- simulator ---------------- *)
@@ -252,7 +252,7 @@ Proof.
       destruct (good_snoc a h (map (fun v => Tok (tokn v)) (objof h cb)) (conj Hc Ha) (Forall_tok_map _ _)) as [G1 F1].
       repeat split; auto; try apply G1. rewrite app_length. lia.
     - destruct (tokn (fld h qc 2)).
-      + inversion Ei; subst. repeat split; auto. exact I.
+      + inversion Ei; subst. repeat split; auto.
       + unfold alloc in Ei. inversion Ei; subst.
         destruct (good_snoc a h (repeat (Tok 0) (S n)) (conj Hc Ha) (Forall_tok_repeat _ _)) as [G1 F1].
         repeat split; auto; try apply G1. rewrite app_length. lia. }
@@ -289,8 +289,13 @@ Theorem result_fresh_lemma fl w c w' r :
   exec fl w c = Some (w', r) -> forall f, dfresh (length (hp w)) f (hp w') r.
 Proof.
   unfold flags_fresh. intros Hf G Hwf E.
-  repeat (apply andb_prop in Hf; destruct Hf as [Hf ?]).
-  pose proof Hf as Hpure. unfold flags_pure in Hf.
+  apply andb_prop in Hf; destruct Hf as [Hf Harg].
+  apply andb_prop in Hf; destruct Hf as [Hf Hfl].
+  apply andb_prop in Hf; destruct Hf as [Hf Hrev].
+  apply andb_prop in Hf; destruct Hf as [Hf Hchain].
+  apply andb_prop in Hf; destruct Hf as [Hf Hadj].
+  apply andb_prop in Hf; destruct Hf as [Hpure Hres].
+  pose proof Hpure as Hf. unfold flags_pure in Hf.
   apply andb_prop in Hf. destruct Hf as [Hf Hsg]. apply andb_prop in Hf. destruct Hf as [Hci Hic].
   assert (G0 : good (length (hp w)) (hp w)) by (split; [apply closed_nil|lia]).
   destruct c; cbv beta iota zeta delta [exec] in E.
@@ -328,7 +333,7 @@ Proof.
     eapply fresh_result with (a := length (hp w)); auto. apply G3.
   - (* CResolve *)
     destruct (op_resolve fl (hp w) qc) as [[h1 r1]|] eqn:Eo; try discriminate. inversion E; subst. simpl hp.
-    unfold op_resolve in Eo. rewrite H4 in Eo.
+    unfold op_resolve in Eo. rewrite Hres in Eo.
     destruct (op_pass_fresh _ _ _ _ _ _ _ _ (or_introl eq_refl) Eo) as (a & Ha & Hc & Hr).
     eapply fresh_result; eauto.
   - (* CAdjacent *)
@@ -337,26 +342,26 @@ Proof.
     assert (Hcase : f_adjacent_final fl = true \/
                     ([] = @nil nat /\ ((if f_adjacent_literals fl then 0 else 2) = 0 \/
                                         ((if f_adjacent_literals fl then 0 else 2) = 3 /\ false = true)))).
-    { apply orb_prop in H3. destruct H3 as [->|->]; auto. }
+    { apply orb_prop in Hadj. destruct Hadj as [-> | ->]; auto. }
     destruct (op_pass_fresh _ _ _ _ _ _ _ _ Hcase Eo) as (a & Ha & Hc & Hr).
     eapply fresh_result; eauto.
   - (* CChain *)
     destruct (op_chain fl modes (hp w) qc) as [[h1 r1]|] eqn:Eo; try discriminate. inversion E; subst. simpl hp.
-    unfold op_chain in Eo. rewrite Hci, H2 in Eo.
+    unfold op_chain in Eo. rewrite Hci, Hchain in Eo.
     destruct (op_pass_fresh _ _ _ _ _ _ _ _ (or_introl eq_refl) Eo) as (a & Ha & Hc & Hr).
     eapply fresh_result; eauto.
   - (* CReverse *)
     destruct (op_reverse fl (hp w) qc) as [[h1 r1]|] eqn:Eo; try discriminate. inversion E; subst. simpl hp.
-    unfold op_reverse in Eo. rewrite H1 in Eo. simpl negb in Eo.
+    unfold op_reverse in Eo. rewrite Hrev in Eo. simpl negb in Eo.
     destruct (op_pass_fresh _ _ _ _ _ _ _ _ (or_introl eq_refl) Eo) as (a & Ha & Hc & Hr).
     eapply fresh_result; eauto.
   - (* CAddCircuit *)
     destruct (op_addc fl (hp w) qc) as [[h1 r1]|] eqn:Eo; try discriminate. inversion E; subst. simpl hp.
-    unfold op_addc in Eo. rewrite H0, H in Eo.
+    unfold op_addc in Eo. rewrite Hfl, Harg in Eo.
     destruct (op_pass_fresh false true 3 [] _ _ _ _ (or_intror (conj eq_refl (or_intror (conj eq_refl eq_refl)))) Eo) as (a & Ha & Hc & Hr).
     eapply fresh_result; eauto.
   - (* CReadOnly *)
-    unfold alloc in E. inversion E; subst. simpl hp. apply tokens_result; [lia|]. repeat constructor. eauto.
+    unfold alloc in E. inversion E; subst. simpl hp. apply tokens_result; [apply Nat.le_refl|]. repeat constructor. eauto.
   - (* CSchedule *)
     destruct (op_schedule fl is_circ (hp w) a) as [[h1 r1]|] eqn:Eo; try discriminate. inversion E; subst. simpl hp.
     unfold op_schedule in Eo.
@@ -366,7 +371,8 @@ Proof.
     unfold alloc in Eo. inversion Eo; subst.
     apply tokens_result.
     + apply opt_copy_extends in E1. apply extends_len in E1. apply opt_copy_extends in E2. apply extends_len in E2.
-      apply (mapH_len _ (node_of_len _)) in E3. lia.
+      apply (mapH_len _ (node_of_len _)) in E3.
+      eapply Nat.le_trans; [exact E1|]. eapply Nat.le_trans; [exact E2|exact E3].
     + clear. induction nodes; simpl; constructor; eauto.
   - (* CInstr *)
     destruct (instr_of (f_instr_copy fl) (hp w) g) as [[h1 r1]|] eqn:Eo; try discriminate. inversion E; subst. simpl hp.
@@ -394,11 +400,12 @@ Proof.
     unfold alloc in E. inversion E; subst. simpl hp.
     apply tokens_result; [|repeat constructor; eauto].
     assert (X1 : length (hp w) <= length h1).
-    { destruct chain; [|inversion E1; subst; lia].
+    { destruct chain; [|inversion E1; subst; apply Nat.le_refl].
       unfold op_chain in E1. rewrite Hci in E1. apply op_pass_extends in E1. now apply extends_len. }
     assert (X2 : length h1 <= length h2) by (apply op_pass_extends in E2; now apply extends_len).
     unfold compile_heap in E3. destruct (mapH _ h2 _) as [[hx xs]|] eqn:Em; try discriminate.
-    inversion E3; subst. apply (mapH_len _ (instr_of_len _)) in Em. lia.
+    inversion E3; subst. apply (mapH_len _ (instr_of_len _)) in Em.
+    eapply Nat.le_trans; [exact X1|]. eapply Nat.le_trans; [exact X2|exact Em].
   - destruct noisy; [destruct (noisy_query fl true _)|]; inversion E; subst; destruct f; exact I.
   - destruct (noisy_query fl dn _). inversion E; subst. destruct f; exact I.
   - inversion E; subst. destruct f; exact I.
